@@ -27,7 +27,7 @@ CLAIMED = {
         note="as C01; schedules: switches at synchronisation operations only, at most one preemption.",
         ref="DESIGN.md section 6, C02"),
     "C03": dict(
-        text="Segment shapes enumerated (<= 3 segments of junk 1..3 B / frames with payload 1,2,3,5 B, truncated tail at every cut; long frames 255/256/1023 B; thorough: payload 1..12, junk 1..8, 257/1022), contents symbolic "
+        text="Segment shapes enumerated (<= 3 segments of junk 1..3 B / frames with payload 1,2,3,5 B, truncated tail at every cut; long frames 255/256/1023 B; thorough: payload 1,2,3,4,5,8,12, junk 1,2,3,8, 257/1022), contents symbolic "
              "(all 4096 types, every CRC value, 0xD3 inside payload/CRC): exactly one message per segment, in order, with exactly its bytes and type.",
         note="shapes outside the enumerated family are outside the claim; CRC model as C01.",
         ref="DESIGN.md section 6, C03"),
